@@ -48,9 +48,9 @@ class LibInterp(Interp):
             items = self.iterate(args[0], e) if len(args) == 1 else list(args)
             if any(isinstance(x, Sym) or x is None for x in items):
                 raise HostOrdering(e)
-        if name == 'isinstance' and args and isinstance(args[0], Sym) and args[0].kind == 'val' and len(args[0].args) > 3:
+        if name == 'isinstance' and args and isinstance(args[0], Sym) and args[0].kind == 'val' and len(args[0].args) > 2:
             from .atoms import CLASS_NAMES, INSTANCE_OF
-            atom = args[0].args[3]
+            atom = args[0].args[2]
             classes = [norm(x) for x in (e.args[1].elts if isinstance(e.args[1], ast.Tuple) else [e.args[1]])]
             for c in classes:
                 if c not in CLASS_NAMES:
@@ -80,3 +80,229 @@ def minmax_scenarios():
     for n in (1, 2, 3):
         out += [list(c) for c in itertools.product(pool, repeat=n)]
     return {'a': 1, 'b': 2, 'c': 3}, out
+
+
+# ------------------------------------------------------------------------------------------------ index-taking functions
+MISSING = object()
+
+
+class Fail:
+    """documented failure: the call evaluates to `value`"""
+    def __init__(self, value):
+        self.value = value
+
+    def __eq__(self, other):
+        return isinstance(other, Fail) and other.value == self.value
+
+    def __repr__(self):
+        return f'failure({self.value!r})'
+
+
+def _integral(i):
+    return isinstance(i, (int, float)) and not isinstance(i, bool) and int(i) == i
+
+
+def ref_array_get(a, i):
+    return a[int(i)] if _integral(i) and 0 <= i < len(a) else Fail(None)
+
+
+def ref_array_set(a, i, v):
+    if _integral(i) and 0 <= i < len(a):
+        a[int(i)] = v
+        return v
+    return Fail(None)
+
+
+def ref_array_delete(a, i):
+    if _integral(i) and 0 <= i < len(a):
+        del a[int(i)]
+        return None
+    return Fail(None)
+
+
+def ref_array_slice(a, s=0, e=None):
+    if s is None:
+        return Fail(None)
+    e = len(a) if e is None else e
+    if _integral(s) and _integral(e) and 0 <= s <= len(a) and 0 <= e <= len(a):
+        return list(a[int(s):int(e)])
+    return Fail(None)
+
+
+def ref_index_of(eq):
+    def f(a, v, i=0):
+        if i is None or not (_integral(i) and 0 <= i < len(a)):
+            return Fail(-1)
+        for k in range(int(i), len(a)):
+            if eq(a[k], v):
+                return k
+        return -1
+    return f
+
+
+def ref_last_index_of(eq):
+    def f(a, v, i=None):
+        if i is None:
+            i = len(a) - 1
+            if i < 0:
+                return -1
+        if not (_integral(i) and 0 <= i < len(a)):
+            return Fail(-1)
+        for k in range(int(i), -1, -1):
+            if eq(a[k], v):
+                return k
+        return -1
+    return f
+
+
+def ref_char_code_at(s, i):
+    return ord(s[int(i)]) if _integral(i) and 0 <= i < len(s) else Fail(None)
+
+
+def ref_string_index_of(s, sub, i=0):
+    if i is None or not (_integral(i) and 0 <= i < len(s)):
+        return Fail(-1)
+    return s.find(sub, int(i))
+
+
+def ref_string_last_index_of(s, sub, i=None):
+    if i is None:
+        i = len(s) - 1
+        if i < 0:
+            return -1
+    if not (_integral(i) and 0 <= i < len(s)):
+        return Fail(-1)
+    return s.rfind(sub, 0, int(i) + len(sub))
+
+
+def ref_string_slice(s, start=MISSING, end=None):
+    if start is MISSING or start is None:
+        return Fail(None)
+    end = len(s) if end is None else end
+    if _integral(start) and _integral(end) and 0 <= start <= len(s) and 0 <= end <= len(s):
+        return s[int(start):int(end)]
+    return Fail(None)
+
+
+INDEXES = [-2, -1, 0, 1, 2, 3, 4, 5]
+ODD = [1.5, None, 'x', True, MISSING]
+
+
+def index_scenarios():
+    """(script function, description, argument builder, reference) ; arrays hold distinct opaque values a < b < c plus a duplicate"""
+    A, B, C = val('a'), val('b'), val('c')
+    eq = lambda x, y: x == y
+    arrays = [[], [A], [A, B], [A, B, A], [A, B, C]]
+    strings = ['a', 'ab', 'abab', 'abcab']
+    out = []
+    for arr in arrays:
+        for i in INDEXES + ODD:
+            tail = [] if i is MISSING else [i]
+            out.append(('arrayGet', arr, [('seq',)] + tail, lambda a, *r: ref_array_get(a, *r) if r else Fail(None)))
+            out.append(('arrayDelete', arr, [('seq',)] + tail, lambda a, *r: ref_array_delete(a, *r) if r else Fail(None)))
+            out.append(('arraySet', arr, [('seq',)] + tail + ([val('new')] if tail else []), lambda a, *r: ref_array_set(a, *r) if len(r) == 2 else Fail(None)))
+            out.append(('arrayIndexOf', arr, [('seq',), A] + tail, ref_index_of(eq)))
+            out.append(('arrayIndexOf', arr, [('seq',), val('zz')] + tail, ref_index_of(eq)))
+            out.append(('arrayLastIndexOf', arr, [('seq',), A] + tail, ref_last_index_of(eq)))
+            out.append(('arraySlice', arr, [('seq',)] + tail, ref_array_slice))
+            for j in (0, 1, 3, 4, None, 1.5):
+                if i is not MISSING:
+                    out.append(('arraySlice', arr, [('seq',), i, j], ref_array_slice))
+    for st in strings:
+        for i in INDEXES + ODD:
+            tail = [] if i is MISSING else [i]
+            out.append(('stringCharCodeAt', st, [('seq',)] + tail, lambda s, *r: ref_char_code_at(s, *r) if r else Fail(None)))
+            out.append(('stringIndexOf', st, [('seq',), 'ab'] + tail, ref_string_index_of))
+            out.append(('stringIndexOf', st, [('seq',), 'b'] + tail, ref_string_index_of))
+            out.append(('stringLastIndexOf', st, [('seq',), 'ab'] + tail, ref_string_last_index_of))
+            out.append(('stringLastIndexOf', st, [('seq',), 'a'] + tail, ref_string_last_index_of))
+            out.append(('stringSlice', st, [('seq',)] + tail, ref_string_slice))
+            for j in (0, 1, 2, 5, 6, None, 1.5):
+                if i is not MISSING:
+                    out.append(('stringSlice', st, [('seq',), i, j], ref_string_slice))
+    return out
+
+
+def spell(v, as_float):
+    if isinstance(v, int) and not isinstance(v, bool):
+        return float(v) if as_float else v
+    return v
+
+
+def show_arg(v):
+    if isinstance(v, Sym) and v.kind == 'val':
+        return v.args[0]
+    if isinstance(v, AList):
+        return '[' + ', '.join(show_arg(x) for x in v.l) + ']'
+    if isinstance(v, list):
+        return '[' + ', '.join(show_arg(x) for x in v) + ']'
+    if v is None:
+        return 'null'
+    return repr(v)
+
+
+def run_index_functions(repo, libfuncs, rule='E6l'):
+    """-> (n_runs, problems) ; problems: list of (script function, kind, message) ; kind in result / unchanged / spelling / host"""
+    lib = repo.module('library')
+    it = LibInterp(repo, lib, rule)
+    it.rank = {'a': 1, 'b': 2, 'c': 3, 'new': 4, 'zz': 5}
+    it.oracles['value_args_model'] = lambda args, node: args[0]
+    problems = []
+    n = 0
+    per_fn = {}
+    for name, seq, args, ref in index_scenarios():
+        lf = libfuncs.get(name)
+        if lf is None:
+            raise Unrecognised(rule, f'{name} is not registered', lib.rel)
+        outcomes = []
+        for as_float in (False, True):
+            n += 1
+            per_fn[name] = per_fn.get(name, 0) + 1
+            model = list(seq) if isinstance(seq, list) else seq
+            a_seq = AList(list(seq)) if isinstance(seq, list) else seq
+            call_args = AList([a_seq if a == ('seq',) else spell(a, as_float) for a in args])
+            ref_args = [model if a == ('seq',) else spell(a, as_float) for a in args]
+            desc = f'{name}(' + ', '.join(show_arg(x) for x in call_args.l) + ')'
+            try:
+                got = it.run(lf.func, [call_args, ADict({})])
+            except HostOrdering as ho:
+                problems.append((name, 'host', f'{desc}: host ordering of script values at {norm(ho.node)[:60] if ho.node is not None else "?"}'))
+                break
+            want = ref(*ref_args)
+            if got[0] == 'raise':
+                if got[1] == 'ValueArgsError':
+                    rv = got[2][2] if len(got[2]) > 2 else None
+                    res = Fail(rv)
+                else:
+                    problems.append((name, 'host', f'{desc} raises the host exception {got[1]}{got[2]!r}: the call wrapper turns it into null'
+                                     + ('' if isinstance(want, Fail) and want.value is None else f' instead of {want!r}')
+                                     + (' (and the argument is not reported through the documented failure path)' if isinstance(want, Fail) else '')))
+                    outcomes.append(('host', got[1]))
+                    continue
+            else:
+                res = got[1]
+                if isinstance(res, AList):
+                    if res is a_seq and name in ('arraySlice',):
+                        problems.append((name, 'result', f'{desc} returns the argument array itself; a slice must be a fresh array'))
+                    res = list(res.l)
+            outcomes.append(res)
+            if res != want and not (isinstance(want, Fail) and res == want):
+                problems.append((name, 'result', f'{desc} gives {_show_res(res)}; the reference sequence model gives {_show_res(want)}'))
+                continue
+            after = list(a_seq.l) if isinstance(a_seq, AList) else a_seq
+            if isinstance(want, Fail) and after != (list(seq) if isinstance(seq, list) else seq):
+                problems.append((name, 'unchanged', f'{desc} fails but leaves the array as {show_arg(after)} (arguments must be unchanged on failure)'))
+            elif not isinstance(want, Fail) and isinstance(seq, list) and after != model:
+                problems.append((name, 'result', f'{desc} leaves the array as {show_arg(after)}; the reference gives {show_arg(model)}'))
+        if len(outcomes) == 2 and outcomes[0] != outcomes[1]:
+            problems.append((name, 'spelling', f'{name}(' + ', '.join(show_arg(x) for x in [seq if a == ("seq",) else a for a in args]) + f') gives {_show_res(outcomes[0])} when the numbers are host ints '
+                             f'and {_show_res(outcomes[1])} when they are floats (script literals are floats)'))
+    return n, per_fn, problems
+
+
+def _show_res(r):
+    if isinstance(r, Fail):
+        return repr(r)
+    if isinstance(r, tuple) and r and r[0] == 'host':
+        return f'host exception {r[1]}'
+    return show_arg(r)
